@@ -93,10 +93,10 @@ inline const std::vector<std::string>& alphabet(sm::VClass c, const FieldDef& f)
 	static const std::vector<std::string> bools { "Y", "N" };
 	static const std::vector<std::string> floats { "0", "1", "-1", "0.5", "400.5", "0.01", "-0.99", "123456.78", "2147483647" };
 	static const std::vector<std::string> strs { "A", "a=b", "x y", "~!@#$%^&*()_+", "ABCDEFGHIJKLMNOPQRSTUVWXYZabcdefghijklmn", "10=000", "34=9" };
-	static const std::vector<std::string> ts { "19700101-00:00:00.000", "20000229-23:59:59.999", "20380119-03:14:08.000", "20991231-23:59:59.999", "20240229-12:00:00" };
+	static const std::vector<std::string> ts { "19700101-00:00:00.000", "20000229-23:59:59.999", "20380119-03:14:08.000", "20991231-23:59:59.999", "20240229-12:00:00", "20240301-00:00:00.000", "20240331-23:59:59.999", "20000101-00:00:00.000" };
 	static const std::vector<std::string> to { "00:00:00.000", "23:59:59.999", "12:34:56.789" };
-	static const std::vector<std::string> dt { "19700101", "20240229", "20991231" };
-	static const std::vector<std::string> my { "197001", "209912", "20240229" };
+	static const std::vector<std::string> dt { "19700101", "20240229", "20991231", "20240301", "20000131" };
+	static const std::vector<std::string> my { "197001", "209912", "20240229", "202403", "200002" };
 	static const std::vector<std::string> data { "d", "a=b", "0123456789" };
 	static const std::vector<std::string> lens { "0", "1", "5", "2048", "8192" };
 	static const std::vector<std::string> seqs { "0", "1", "7", "10", "2147483647" };	// SeqNum / TagNum / NumInGroup domain: non-negative
